@@ -4,6 +4,7 @@ Import ListNotations.
 From GV Require Import gen.Gen_memo C01.Heap C01.HeapLemmas C01.Model C01.Lemmas1 C05.Model.
 From GV Require Export C05.Lemmas1.
 From GV Require Import C05.Post C05.PostLemmas.
+From GV Require C05.Memo C05.MemoLemmas.
 
 Lemma coherentE_empty_memo : forall den h, coherentE den (mkstate h []).
 Proof. intros den h k a H. simpl in H. discriminate. Qed.
@@ -302,3 +303,8 @@ Definition inplace_post_refuted := PostLemmas.inplace_post_refuted.
 Definition safe_prog_sound := PostLemmas.safe_prog_sound.
 Definition cached_values_never_written := PostLemmas.cached_values_never_written.
 Definition post_table_rows := PostLemmas.post_table_rows.
+(* the translated memoize / clear_cache over a heap of dict objects (MemoLemmas.v) *)
+Definition memoize_refines_store := MemoLemmas.memoize_refines_store.
+Definition consulted_dict_is_cleared_dict := MemoLemmas.consulted_dict_is_cleared_dict.
+Definition clear_mask_caches_empties_every_store := MemoLemmas.clear_mask_caches_empties_every_store.
+Definition rebinding_refuted := MemoLemmas.rebinding_refuted.
